@@ -34,7 +34,7 @@ PLAN = {'quick': {'gen': 8}, 'thorough': {'gen': 16, 'tests': 1}}
 REQUIRED_BUCKETS = ['op:Plane()', 'op:Pupil(mask3d)', 'op:multiply', 'op:propagate_dft', 'op:propagate_fft', 'op:fit_tilt',
                     'op:rescale', 'op:adc', 'op:collect_charge', 'op:collect_charge_bayer', 'op:tilt-multiply', 'op:Field(ndarray offset)', 'op:Plane.properties', 'op:pixel', 'op:jitter', 'op:smear',
                     'op:dft2', 'op:idft2', 'op:zernike_fit', 'op:pad', 'op:rebin', 'op:power_spectrum', 'op:Spectrum.multiply',
-                    'op:Spectrum.sample', 'op:Spectrum.bin', 'op:Spectrum.to', 'op:refusals', 'op:shot_noise', 'op:read_noise', 'program', 'dft-keys>32',
+                    'op:Spectrum.sample', 'op:Spectrum.bin', 'op:Spectrum.to', 'op:refusals', 'op:fit_tilt:nothing-to-fit', 'op:shot_noise', 'op:read_noise', 'program', 'dft-keys>32',
                     'replayed']
 REQUIRED_ANCHORS = ['anchor:_dft2_coords', 'anchor:Plane.__init__', 'anchor:adc', 'anchor:Plane.fit_tilt', 'anchor:Field.__mul__']
 REQUIRED_ORACLES = ['frozen-inputs', 'inputs-unchanged', 'history-deterministic', 'global-rng-untouched', 'global-state-untouched', 'dft-cache-intact',
@@ -330,6 +330,15 @@ def catalogue(lentil, rng):
         shape = (k * os_ * int(rng.integers(1, 4)), k * os_ * int(rng.integers(1, 4)))
         a = {'img': rng.uniform(0, 1e3, size=(2,) + shape), 'wave': np.array([500., 700.]), 'r': rng.uniform(0, 1, 2),
              'g': rng.uniform(0, 1, 2), 'b': rng.uniform(0, 1, 2)}
+        if rng.random() < 0.4:
+            # a single 2-D frame (the tolerated special case of both collectors), kept by the caller and used again afterwards
+            a = {'img': rng.uniform(0, 1e3, size=shape), 'wave': np.array([550.]), 'r': np.array([0.3]), 'g': np.array([0.6]),
+                 'b': np.array([0.2])}
+            def call2d(a):
+                r1 = D.collect_charge_bayer(a['img'], a['wave'], a['r'], a['g'], a['b'], 'RGGB', oversample=os_)
+                r2 = D.collect_charge(a['img'], a['wave'], a['g'])
+                return (r1, r2, lentil.rebin(a['img'], 2), np.array(np.shape(a['img']), float))
+            return a, call2d
         return a, lambda a: D.collect_charge_bayer(a['img'], a['wave'], a['r'], a['g'], a['b'], 'RGGB', oversample=os_)
 
     for name, fn in (('pixel', lambda im: D.pixel(im, 3)), ('pixelate', lambda im: D.pixelate(im, 3)),
@@ -402,6 +411,27 @@ def catalogue(lentil, rng):
         wa = np.linspace(wa[0], wa[-1] + 5, na); wb = np.linspace(wb[0], wb[-1] + 5, nb)
         return ({'wa': wa * ua[1], 'va': rng.uniform(0.1, 1, na), 'wb': wb * ub[1], 'vb': rng.uniform(0.1, 1, nb)}, ua[0], ub[0])
 
+    @op('fit_tilt:nothing-to-fit')
+    def _():
+        # planes with a constant OPD (nothing to fit): fit_tilt() still returns a copy, and editing the copy in the documented
+        # ways leaves the original as it was
+        shape, A = aperture()
+        a = {'amp': gen.amplitude(rng, A), 'new_opd': gen.opd(rng, shape, 6e-7)}
+        which = int(rng.integers(0, 3))
+        def call(a):
+            p = [lambda: lentil.Pupil(amplitude=a['amp'], pixelscale=1e-3, focal_length=5.0),
+                 lambda: lentil.Pupil(amplitude=a['amp'], opd=3e-8, pixelscale=1e-3, focal_length=5.0),
+                 lambda: lentil.Plane(amplitude=a['amp'], opd=0, pixelscale=1e-3)][which]()
+            fp0 = probe.fingerprint(p)
+            q = p.fit_tilt()
+            same_obj = 0.0 if q is not p else 1.0
+            q.opd = np.array(a['new_opd'])        # (fit_tilt(inplace=True) is documented to edit the plane's own OPD array)
+            q.fit_tilt(inplace=True)
+            q.amplitude = np.asarray(q.amplitude) * 0.5
+            w = lentil.Wavefront(6e-7) * p if which < 2 else p.multiply(lentil.Wavefront(6e-7))
+            return (w, np.array([same_obj])), [('plane', fp0, probe.fingerprint(p))]
+        return a, call
+
     @op('refusals')
     def _():
         # calls that lentil refuses (they raise): the refusal must leave the caller's operands alone and - because this entry
@@ -431,6 +461,10 @@ def catalogue(lentil, rng):
                 lambda: sp * R.Spectrum(a['wa'], a['va'][:-1], waveunit='nm'),
                 lambda: R.Spectrum(a['wa'][:3], a['va'], waveunit='nm'),
                 lambda: sp.resample(a['wa'][::-1]),
+                lambda: sp.sample(a['wa'][:3] / 1e3, method='no-such-method', waveunit='um'),
+                lambda: sp.sample(a['wa'][:3] * 10, method='linear', fill_value=object(), waveunit='angstrom'),
+                lambda: R.Spectrum(a['wa'][:3], a['va'][:3], waveunit='nm').sample(a['wa'][:2] / 1e3, method='cubic', waveunit='um'),
+                lambda: sp.bin(a['wa'][1:4] / 1e3, interp_method='no-such-method', waveunit='um'),
                 lambda: lentil.rebin(a['f'], 2),
                 lambda: lentil.zernike(a['mask'][0], 0),
                 lambda: lentil.pad(a['img'], (2, 3, 4, 5)),
